@@ -201,7 +201,7 @@ func TestC16Subtrees(t *testing.T) {
 	if err := e.Start(); err != nil {
 		t.Fatal(err)
 	}
-	maxSize := pick(33, 80)
+	maxSize := pick(40, 80)
 	l := newWitLog(rng.Fork("log"), "verif.example/log-c16", maxSize+3, nil, 0)
 	if err := e.AddLogs(true, l); err != nil {
 		t.Fatal(err)
